@@ -12,6 +12,7 @@ import (
 	"sort"
 	"strings"
 	"sync"
+	"sync/atomic"
 	"syscall"
 	"time"
 
@@ -189,6 +190,7 @@ type tcpScript struct {
 	dest       string // host:port the address header names ("" = none)
 	destHdr    []byte
 	concurrent bool
+	trickle    bool // unauthenticated client that stays open and keeps sending a byte every 0.3 T
 }
 
 func (s *tcpScript) wire() []byte {
@@ -242,20 +244,21 @@ func (s *tcpScript) chunkField() string {
 }
 
 type tcpObs struct {
-	search     []bool
-	calls      []string
-	status     string
-	data       metrics.ProxyMetrics
-	metricsOK  bool
-	fromServer []byte
-	closeKind  string // fin | rst | none
-	closeAt    time.Duration
-	clientFin  time.Duration // when the client half-closed (0 = never before close)
-	start      time.Time
-	tgt        *tgtConnRec
-	sent       int
-	clientPort int
-	srvFin     string // early: the server's FIN reached the client before the client half-closed; late; "-" n/a
+	openAtPatience bool // the server had not closed when the client's patience (deadline + 400 ms) ran out
+	search         []bool
+	calls          []string
+	status         string
+	data           metrics.ProxyMetrics
+	metricsOK      bool
+	fromServer     []byte
+	closeKind      string // fin | rst | none
+	closeAt        time.Duration
+	clientFin      time.Duration // when the client half-closed (0 = never before close)
+	start          time.Time
+	tgt            *tgtConnRec
+	sent           int
+	clientPort     int
+	srvFin         string // early: the server's FIN reached the client before the client half-closed; late; "-" n/a
 }
 
 func tcpEngine(rng *Rng, n int, out *Out, args map[string]string) {
@@ -477,6 +480,11 @@ func tcpCase(r *Rng, e *netEnv, tg *tcpTargets, out *Out) {
 		if seqIdle && !strings.HasPrefix(s.kind, "probe") {
 			s.end = "fin" // authenticated streams with a client that stays open are run concurrently (phase B)
 		}
+		// the deadline of an unauthenticated connection is absolute: a client that keeps trickling
+		// bytes after its (>= 50 byte) probe is cut off at the same moment as a silent one
+		if s.end == "idle" && s.rawPrefix != nil && len(s.rawPrefix) >= 50 && r.Chance(50) {
+			s.trickle = true
+		}
 		return s
 	}
 
@@ -506,6 +514,29 @@ func tcpCase(r *Rng, e *netEnv, tg *tcpTargets, out *Out) {
 		if s.end == "fin" {
 			conn.CloseWrite()
 			o.clientFin = time.Since(o.start)
+		}
+		var trickled int32
+		stopTrickle := make(chan struct{})
+		if s.trickle {
+			go func() {
+				for k := 1; ; k++ {
+					at := o.start.Add(time.Duration(k) * timeout * 3 / 10)
+					if d := time.Until(at); d > 0 {
+						select {
+						case <-time.After(d):
+						case <-stopTrickle:
+							return
+						}
+					}
+					if time.Since(o.start) > timeout+400*time.Millisecond {
+						return
+					}
+					if _, err := conn.Write([]byte{byte(k)}); err != nil {
+						return
+					}
+					atomic.AddInt32(&trickled, 1)
+				}
+			}()
 		}
 		// read until the server closes (bounded), remembering how it ended
 		readDone := make(chan struct{})
@@ -538,6 +569,9 @@ func tcpCase(r *Rng, e *netEnv, tg *tcpTargets, out *Out) {
 			}
 		}()
 		<-readDone
+		o.openAtPatience = o.closeKind == "none"
+		close(stopTrickle)
+		o.sent += int(atomic.LoadInt32(&trickled))
 		rec0 := getRec(o.clientPort)
 		halfClosed := false
 		if o.closeKind == "fin" && s.end == "idle" {
@@ -626,7 +660,21 @@ func tcpCase(r *Rng, e *netEnv, tg *tcpTargets, out *Out) {
 				dial = "ok"
 			}
 		}
-		op := fmt.Sprintf("tcp conn raw=%d end=%s opens=%s srv=%s first=%s chunks=%s dial=%s dialip=%s sink=%s", len(wire), s.end, intsField(opens), intsField(srv), hexs(first), s.chunkField(), dial, dialip, sink)
+		rawN := len(wire)
+		if s.trickle {
+			// how many of the trickled bytes arrived before the deadline is the server's to say (the last
+			// one races with the deadline); the byte-count oracle below still bounds it by what was sent
+			if cp := int(o.data.ClientProxy); cp >= len(wire) && cp <= o.sent {
+				rawN = cp
+			} else {
+				rawN = o.sent
+			}
+			out.Stat("conn.trickle", 1)
+			if o.openAtPatience && (o.status == "ERR_CIPHER" || o.status == "ERR_REPLAY_CLIENT" || o.status == "ERR_REPLAY_SERVER") {
+				out.Oracle("C06", "a connection that never authenticated (%s) and keeps sending one byte every 0.3 T was still open 400 ms after the deadline: the deadline has become an idle timeout", s.kind)
+			}
+		}
+		op := fmt.Sprintf("tcp conn raw=%d end=%s opens=%s srv=%s first=%s chunks=%s dial=%s dialip=%s sink=%s", rawN, s.end, intsField(opens), intsField(srv), hexs(first), s.chunkField(), dial, dialip, sink)
 		// ---- canonical observation
 		var parts []string
 		parts = append(parts, "search="+searchFound)
@@ -680,6 +728,10 @@ func tcpCase(r *Rng, e *netEnv, tg *tcpTargets, out *Out) {
 			cls = "fin@after-client-fin"
 		case o.closeKind == "fin" && s.end == "idle" && o.closeAt >= timeout-20*time.Millisecond && o.closeAt <= timeout+tol:
 			cls = "fin@deadline"
+		case s.trickle && o.closeKind == "rst" && o.closeAt >= timeout-20*time.Millisecond && o.closeAt <= timeout+tol:
+			// the client's own next byte met the closed connection before it had read the FIN: the
+			// reset answers that byte, the server closed at the deadline all the same
+			cls = "fin@deadline"
 		case o.closeKind == "fin" && s.end == "idle" && o.closeAt < timeout-20*time.Millisecond:
 			cls = "fin@early"
 		case o.closeKind == "fin" && s.end == "idle":
@@ -731,6 +783,7 @@ func tcpCase(r *Rng, e *netEnv, tg *tcpTargets, out *Out) {
 		if isProbe && len(opens) == 0 || (s.kind == "probe-replay" && useCache) || (s.kind == "probe-server-salt" && len(srv) > 0) {
 			if authd {
 				out.Oracle("C15", "AddAuthenticated reported for a connection that did not authenticate (%s, status %s)", s.kind, o.status)
+				out.Oracle("C17", "a connection that did not authenticate (%s, status %s) was reported authenticated: the collector starts tunnel time for it", s.kind, o.status)
 				out.Oracle("C01", "a %s connection was reported authenticated", s.kind)
 			}
 			if tgt != nil {
@@ -747,8 +800,8 @@ func tcpCase(r *Rng, e *netEnv, tg *tcpTargets, out *Out) {
 			if strings.HasPrefix(cls, "rst") || cls == "fin@early" {
 				out.Oracle("C06", "a %s connection (%d bytes, client %s) was closed %s after %v (timeout %v)", s.kind, len(wire), s.end, cls, o.closeAt, timeout)
 			}
-			if int(o.data.ClientProxy) != len(wire) {
-				out.Oracle("C06", "the proxy read %d of the %d bytes a %s connection sent", o.data.ClientProxy, len(wire), s.kind)
+			if (!s.trickle && int(o.data.ClientProxy) != len(wire)) || (s.trickle && (int(o.data.ClientProxy) < len(wire) || int(o.data.ClientProxy) > o.sent)) {
+				out.Oracle("C06", "the proxy read %d of the %d bytes a %s connection sent", o.data.ClientProxy, o.sent, s.kind)
 			}
 			if s.kind == "probe-server-salt" && o.status != "ERR_REPLAY_SERVER" {
 				out.Oracle("C08", "handshake with a server-issued salt got status %s (cache %s)", o.status, capField)
@@ -814,8 +867,8 @@ func tcpCase(r *Rng, e *netEnv, tg *tcpTargets, out *Out) {
 				}
 			}
 		}
-		if int(o.data.ClientProxy) > len(wire) || (tgt != nil && int(o.data.ProxyTarget) > len(tgt.received)) || int(o.data.ProxyClient) > len(o.fromServer) {
-			out.Oracle("C15", "a byte counter exceeds what crossed the socket: %+v (client sent %d, client got %d)", o.data, len(wire), len(o.fromServer))
+		if int(o.data.ClientProxy) > o.sent || (tgt != nil && int(o.data.ProxyTarget) > len(tgt.received)) || int(o.data.ProxyClient) > len(o.fromServer) {
+			out.Oracle("C15", "a byte counter exceeds what crossed the socket: %+v (client sent %d, client got %d)", o.data, o.sent, len(o.fromServer))
 		}
 		if (s.kind == "bad-address" || s.kind == "relay-corrupt") && s.end == "idle" && (cls == "fin@early" || cls == "fin@deadline" || strings.HasPrefix(cls, "rst")) {
 			out.Oracle("C06", "authenticated stream that turned invalid (%s) was closed (%s after %v) while the client kept the connection open", s.kind, cls, o.closeAt)
